@@ -135,5 +135,33 @@ def run(tier, seed):
     return res
 
 
+def evaluate_array(case):
+    """model-derived replay: the two array functions on a concrete radial array"""
+    from molgri.space.translations import get_increments, get_between_radii
+    r = np.array(case["r"], dtype=float)
+    inc_exp = np.concatenate([[r[0]], np.diff(r)])
+    ok = bool(np.all(inc_exp > 0))
+    try:
+        with quiet():
+            if case["fn"] == "get_increments":
+                got = get_increments(r)
+            else:
+                got = get_between_radii(r, include_zero=case.get("include_zero", False))
+    except AssertionError:
+        return None if not ok else "AssertionError although all increments are positive"
+    except Exception as e:
+        return f"unexpected {type(e).__name__}: {e}"
+    if not ok:
+        return "accepted although an increment is not positive"
+    if case["fn"] == "get_increments":
+        return None if np.allclose(got, inc_exp, rtol=1e-12, atol=1e-12) else f"increments {got.tolist()} != {inc_exp.tolist()}"
+    R = np.array([2 * r[0]]) if len(r) == 1 else np.concatenate([(r[:-1] + r[1:]) / 2, [r[-1] + (r[-1] - r[-2]) / 2]])
+    if case.get("include_zero"):
+        R = np.concatenate([[0.0], R])
+    return None if got.shape == R.shape and np.allclose(got, R, rtol=1e-12, atol=1e-12) else f"boundaries {got.tolist()} != {R.tolist()}"
+
+
 def replay(case):
+    if case.get("kind") == "array":
+        return evaluate_array(case)
     return evaluate(case)
